@@ -190,6 +190,8 @@ type c07Strat struct {
 	other     integrityblock.ISigningStrategy // the repository's own strategy for another pair
 	signCalls int
 	data      []byte // what the last Sign call was handed
+	key       int
+	ring      []byte // when set, GetPublicKey (matching mode) hands out a window of this keyring
 }
 
 func (s *c07Strat) Sign(data []byte) ([]byte, error) {
@@ -219,12 +221,26 @@ func (s *c07Strat) GetPublicKey() (ed25519.PublicKey, error) {
 	case c07OtherKey:
 		return s.other.GetPublicKey()
 	}
+	if s.ring != nil {
+		// a 32-byte window of the caller's keyring: the keys of the other pairs lie in its spare capacity
+		return ed25519.PublicKey(s.ring[32*s.key : 32*s.key+32]), nil
+	}
 	return s.inner.GetPublicKey()
+}
+
+// c07Keyring: the public keys of all fixture pairs in one contiguous array (fresh per execution).
+func c07Keyring() []byte {
+	var ring []byte
+	for _, id := range c07Eds {
+		ring = append(ring, id.Pub...)
+	}
+	return ring
 }
 
 func c07NewStrat(mode, key int) *c07Strat {
 	return &c07Strat{
 		mode:  mode,
+		key:   key,
 		inner: integrityblock.NewParsedEd25519KeySigningStrategy(c07Eds[key].Priv),
 		other: integrityblock.NewParsedEd25519KeySigningStrategy(c07Eds[(key+1)%len(c07Eds)].Priv),
 	}
@@ -359,6 +375,7 @@ func c07LibRun(c *mc.Ctx) {
 	desc := ""
 	accepted, refused := 0, 0
 	nontrivial := false
+	ring := c07Keyring()
 	for step := 0; step < depth; step++ {
 		k := c.Free(len(c07Eds)+1, "op")
 		if k == 0 {
@@ -378,8 +395,17 @@ func c07LibRun(c *mc.Ctx) {
 		}
 
 		st := c07NewStrat(mode, key)
+		st.ring = ring
 		signer.SigningStrategy = st
 		pub, perr := signer.SigningStrategy.GetPublicKey()
+		if perr == nil {
+			// the tool reports the Web Bundle ID of the strategy's key on every run; the key it is handed here is a
+			// window of the caller's keyring (whatever this call does to the memory behind it shows in later steps)
+			if got, want := webbundleid.GetWebBundleId(pub), refib.WebBundleID(pub); got != want {
+				c.Fail("C07/lib:id-of-strategy-key:"+id.Name, "GetWebBundleId differs from the lower-case unpadded base32 of key+000102", hx(pub), want, got)
+				return
+			}
+		}
 		if perr != nil {
 			// the flow of SignWithIntegrityBlock stops here; nothing was called on the block
 			c.Outcome("step pkerr: flow stops before signing (harness-side, nothing to judge)")
